@@ -35,7 +35,10 @@ MT_SCRIPTS["sleeping"] = ("sleep 2.5; a = 1;", 3, 0)
 MT_SCRIPTS["longline"] = ('for "_i" from 0 to 3000000 do {a = _i}; b = 1;', 3, 0)
 MT_SLICE = {"sliced": 6, "sleeping": 6}
 MT_LIMIT = {"emptyloop": 3000, "sleeping": 4000, "longline": 4000}
-MT_EXEC = {"longline": [["line_step"]]}       # executor call lists of a script (default: start, start+start)
+# the same long loop inside a called block, under a leave scope issued from the top level
+MT_SCRIPTS["longscope"] = ('call {for "_i" from 0 to 3000000 do {a = _i}; b = 1}; c = 2;', 3, 0)
+MT_LIMIT["longscope"] = 4000
+MT_EXEC = {"longline": [["line_step"]], "longscope": [["leave_scope"], ["line_step", "leave_scope"]]}       # executor call lists of a script (default: start, start+start)
 MT_LAG_MS = 1500       # an executor that is still running this long after the request flag was written did not take it up
 
 
@@ -151,7 +154,7 @@ def run(rep, tier, seed, replay):
         for sname, (text, work, err) in MT_SCRIPTS.items():
             for ce in MT_EXEC.get(sname, ce_all):
                 for cc in cc_all:
-                    if sname in MT_LIMIT and (len(ce) != 1 or cc not in (["stop"], ["abort"])):
+                    if sname in MT_LIMIT and ((len(ce) != 1 and sname not in MT_EXEC) or cc not in (["stop"], ["abort"])):
                         continue        # (each case there may last until the time limit)
                     scheds = set()
                     # systematic: controller's steps inserted at every position of the executor's run
@@ -209,7 +212,7 @@ def run(rep, tier, seed, replay):
         observed = [json.loads(o) for o in outs]
         r = mc("ctl_obs", True, err, list(ce), list(cc), observed, work, collect=True)
         rep.add_tlc(r, None)
-        if r.error and "NOTEFFECTIVE" not in r.out and "KEEPSEXECUTING" not in r.out and "NOTALLOWED" not in r.out and "TWOEXECUTORS" not in r.out and not r.ok:
+        if r.error and "NOTEFFECTIVE" not in r.out and "KEEPSEXECUTING" not in r.out and "NOTALLOWED" not in r.out and "TWOEXECUTORS" not in r.out and "HALTEDBUTEMPTY" not in r.out and not r.ok:
             raise vlib.MachineryError("outcome validation failed without verdict: %s" % (r.error or r.out[-1500:]))
         ndrift = r.out.count("NOTALLOWED")
         if ndrift:
@@ -219,6 +222,12 @@ def run(rep, tier, seed, replay):
             c0 = outs[json.dumps(o, sort_keys=True)][0]
             key = "C19/OneExecutor/%s" % sname
             rep.finding(key, "OneExecutor: executor %s, controller %s, script %s under schedule %s: a call was admitted as executor while the other thread was still inside its own executor section (returns E=%s C=%s)"
+                        % (list(ce), list(cc), sname, "".join(c0["schedule"]), o["e"], o["c"]), {"property": "C19", "kind": "mt", "key": key, "case": c0, "outcome": o})
+        if "HALTEDBUTEMPTY" in r.out:
+            o = next(x for x in observed if x["state"] == "halted" and not x["loaded"])
+            c0 = outs[json.dumps(o, sort_keys=True)][0]
+            key = "C19/StateMachine/halted-without-script/%s" % sname
+            rep.finding(key, "StateMachine: executor %s, controller %s, script %s under schedule %s: the VM reports halted and holds no script (returns E=%s C=%s)"
                         % (list(ce), list(cc), sname, "".join(c0["schedule"]), o["e"], o["c"]), {"property": "C19", "kind": "mt", "key": key, "case": c0, "outcome": o})
         if "NOTEFFECTIVE" not in r.out and "KEEPSEXECUTING" not in r.out:
             continue
